@@ -2,6 +2,8 @@ import OrsoVerif.Lemmas.EstimatorsTop
 import OrsoVerif.Lemmas.DistogramState
 import OrsoVerif.Lemmas.ProfileEst
 import OrsoVerif.Lemmas.HistObj
+import OrsoVerif.Lemmas.TableProf
+import OrsoVerif.Lemmas.ProfileHist
 import Mathlib.Algebra.Order.Ring.Rat
 import Mathlib.Algebra.Field.Rat
 import Mathlib.Data.Rat.Floor
@@ -292,6 +294,14 @@ theorem quantile_mono (floor : K → K) (ok : HistOK bins lo hi) (hf : FloorLike
     | exact scanQ_mono (v0, f0) tail 0 _ _ r1 r2 ok.inc ok.pos (by linarith) (by linarith) q1' q2'
 
 set_option linter.unusedVariables false in
+/-- **`estimate_values_below` hands back `count_at`'s answer unchanged** (`Gen.ProfileEst.estimateBelowExpr`, the return
+expression of the method regenerated from the source on every run): so every clause proved of `countAt` — the ends, `None`
+outside the range, the bounds, monotonicity — is a clause of the profile's estimate. -/
+theorem estimate_below_is_count_at (mn mx : Option K) (p : K) :
+    estimateBelow bins mn mx p = countAt bins mn mx p := by
+  unfold estimateBelow
+  cases countAt bins mn mx p <;> simp [Gen.ProfileEst.estimateBelowExpr]
+
 set_option linter.unusedSimpArgs false in
 /-- **A profile's estimates below and above a point add up to the number of non-null values**
 (`count - missing`) whenever the estimate exists, for every profile whose histogram counts add up to
@@ -303,7 +313,7 @@ theorem below_add_above (count missing : K) (mn mx : Option K) (p b : K)
     (hm : mass bins = count - missing)
     (h : estimateBelow bins mn mx p = some b) :
     ∃ a, estimateAbove count missing bins mn mx p = some a ∧ b + a = count - missing := by
-  unfold estimateBelow at h
+  rw [estimate_below_is_count_at] at h
   unfold estimateAbove
   rw [h]
   refine ⟨_, rfl, ?_⟩
@@ -321,6 +331,7 @@ theorem profile_estimates_bounded (ok : HistOK bins lo hi) (count missing : K)
       estimateAbove count missing bins (some lo) (some hi) p = some a ∧
       0 ≤ b ∧ b ≤ count - missing ∧ 0 ≤ a ∧ a ≤ count - missing ∧ b + a = count - missing := by
   obtain ⟨r, hr, hr0, hr1⟩ := countAt_bounds_partial ok (fun v0 f0 h => Or.inl (hhead v0 f0 h)) h0 h1
+  rw [← estimate_below_is_count_at] at hr
   obtain ⟨a, ha, hsum⟩ := below_add_above count missing (some lo) (some hi) p r hm hr
   refine ⟨r, a, hr, ha, hr0, by rw [← hm]; exact hr1, ?_, ?_, hsum⟩
   · rw [← hm] at hsum; linarith
@@ -331,8 +342,9 @@ theorem profile_below_mono (ok : HistOK bins lo hi)
     (hhead : ∀ v0 f0, bins.head? = some (v0, f0) → lo = v0) {p q b1 b2 : K}
     (h0 : lo ≤ p) (hpq : p ≤ q) (h1 : q ≤ hi)
     (e1 : estimateBelow bins (some lo) (some hi) p = some b1)
-    (e2 : estimateBelow bins (some lo) (some hi) q = some b2) : b1 ≤ b2 :=
-  countAt_mono_partial ok (fun v0 f0 h => Or.inl (hhead v0 f0 h)) h0 hpq h1 e1 e2
+    (e2 : estimateBelow bins (some lo) (some hi) q = some b2) : b1 ≤ b2 := by
+  rw [estimate_below_is_count_at] at e1 e2
+  exact countAt_mono_partial ok (fun v0 f0 h => Or.inl (hhead v0 f0 h)) h0 hpq h1 e1 e2
 
 /-! ## Round 2: the strongest true statements about `count_at`, the boundary ranks of `quantile` -/
 
@@ -508,7 +520,7 @@ theorem sum_estimates_use_the_sum (h : Reach mrg Base p) (x : K) :
     p.below x = estimateBelow p.hist p.minimum p.maximum x ∧
     p.above x = estimateAbove p.count p.missing p.hist p.minimum p.maximum x := by
   have hv := reach_view_fresh cache_discipline h
-  unfold EProf.below EProf.above EProf.below estimateBelow estimateAbove
+  unfold EProf.below EProf.above
   rw [hv, fresh_eq load_keeps_bounds]
   exact ⟨rfl, rfl⟩
 
@@ -552,19 +564,19 @@ theorem reachable_estimates_bounded (h : Reach refMerge ProfOK p) (hne : p.hist 
   have e := fun x => sum_estimates_use_the_sum h x
   have sum := fun x b (hb : p.below x = some b) => reachable_below_add_above h hb
   have blo : p.below lo = some 0 := by
-    rw [(e lo).1, hlo, hhi]; exact countAt_min hok
+    rw [(e lo).1, hlo, hhi, estimate_below_is_count_at]; exact countAt_min hok
   refine ⟨lo, hi, hlo, hhi, blo, ?_, ?_, ?_, ?_⟩
   · obtain ⟨a, ha, hs⟩ := sum lo 0 blo
     rw [ha]; congr 1; linarith
   · intro hlt
     have bhi : p.below hi = some (p.count - p.missing) := by
-      rw [(e hi).1, hlo, hhi, ← ok.mass]; exact countAt_max hok hlt
+      rw [(e hi).1, hlo, hhi, ← ok.mass, estimate_below_is_count_at]; exact countAt_max hok hlt
     obtain ⟨a, ha, hs⟩ := sum hi _ bhi
     refine ⟨bhi, ?_⟩
     rw [ha]; congr 1; linarith
   · intro x hx hx'
     obtain ⟨b, hb⟩ := countAt_defined hok hx hx'
-    have hb' : p.below x = some b := by rw [(e x).1, hlo, hhi]; exact hb
+    have hb' : p.below x = some b := by rw [(e x).1, hlo, hhi, estimate_below_is_count_at]; exact hb
     obtain ⟨a, ha, hs⟩ := sum x b hb'
     exact ⟨b, a, hb', ha, hs⟩
   · intro v0 f0 x y bx by' ax ay hh hx hy hxy hyhi h1 h2 h3 h4
@@ -573,13 +585,204 @@ theorem reachable_estimates_bounded (h : Reach refMerge ProfOK p) (hne : p.hist 
     rw [h3] at ha1; rw [h4] at ha2
     simp only [Option.some.injEq] at ha1 ha2
     subst ha1; subst ha2
-    rw [(e x).1, hlo, hhi] at h1
-    rw [(e y).1, hlo, hhi] at h2
+    rw [(e x).1, hlo, hhi, estimate_below_is_count_at] at h1
+    rw [(e y).1, hlo, hhi, estimate_below_is_count_at] at h2
     obtain ⟨m, z, t⟩ := countAt_sound_off_left_tail hok hh hx hy hxy hyhi h1 h2
     rw [ok.mass] at t
     refine ⟨m, z, t, ?_, ?_, ?_⟩ <;> linarith
 
 end profiles
+
+/-! ## Round 4: the base case — the histogram of a freshly built numeric profile -/
+
+/-- **The histogram comprehension of `NumericProfiler` keeps the left edge of every non-empty bin**
+(`Profile.histogramOf` with `Gen.ProfileExpr.histEdgesFrom / histEdgesDropRight / histKeep / histKeepsCount` regenerated from
+`[(left_edge, count) for count, left_edge in zip(hist_counts, bin_edges[:-1]) if count > 0]` on every run).  With
+`bin_edges[1:]` (right edges) or `if count > 1` this no longer checks. -/
+theorem comprehension_keeps_left_edges : LeftEdgesKept K := by
+  intro counts edges
+  unfold profileHist Profile.histogramOf keptBins
+  simp only [Gen.ProfileExpr.histEdgesFrom, Gen.ProfileExpr.histEdgesDropRight, Gen.ProfileExpr.histKeep,
+    Gen.ProfileExpr.histKeepsCount, List.drop_zero, Nat.sub_zero, if_true, List.map_map, gt_iff_lt]
+  rfl
+
+/-- **A freshly built (one-batch) numeric profile is well formed and has no left tail** — `numpy.histogram`'s contract
+(`NumpyHist`: one more edge than counts, edges strictly increasing from the data minimum to the data maximum, counts adding
+up to the number of values, the minimum in the first bin, `DISTOGRAM_BIN_COUNT` bins) is the only hypothesis; the
+comprehension `[(left_edge, count) for count, left_edge in zip(hist_counts, bin_edges[:-1]) if count > 0]` is the generated
+`Profile.histogramOf` (slice, filter and kept pair regenerated on every run).  This discharges the hypothesis `ProfOK` of
+the base case of `Reach` / `TReach` and the hypotheses `HistOK`, `hm`, `hhead` of `profile_estimates_bounded` /
+`profile_below_mono`: on a one-batch profile the open finding C14-K01 cannot occur.  With `bin_edges[1:]` (right edges) this
+no longer checks. -/
+theorem one_batch_profile_ok {counts : List Nat} {edges : List K} {lo hi : K} {n : Nat}
+    (h : NumpyHist counts edges lo hi n) (count missing : K) (hn : count - missing = (n : K)) :
+    ProfOK (⟨count, missing, some lo, some hi, profileHist counts edges, none⟩ : EProf K) ∧
+    HistOK (profileHist counts edges) lo hi ∧ mass (profileHist counts edges) = count - missing ∧
+    (∀ v0 f0, (profileHist counts edges).head? = some (v0, f0) → lo = v0) := by
+  obtain ⟨hi', hp, hl, hm, hw, f0, rest, hh⟩ := profileHist_facts comprehension_keeps_left_edges h (by decide)
+  have hne : profileHist counts edges ≠ [] := by rw [hh]; simp
+  refine ⟨⟨hi', hp, hl, by rw [hm, hn], fun _ => ⟨lo, hi, rfl, rfl, hw⟩⟩, ⟨hi', hp, hne, hw⟩, by rw [hm, hn], ?_⟩
+  intro v0 f0' hv
+  rw [hh] at hv
+  simp only [List.head?_cons, Option.some.injEq, Prod.mk.injEq] at hv
+  exact hv.1
+
+/-- **The estimates of a one-batch profile at full strength** (numpy's contract the only hypothesis): inside the observed
+range both exist, lie in `[0, non-null]`, add up to the number of non-null values, and `below` is non-decreasing. -/
+theorem one_batch_estimates_full {counts : List Nat} {edges : List K} {lo hi : K} {n : Nat}
+    (h : NumpyHist counts edges lo hi n) (count missing : K) (hn : count - missing = (n : K)) {p q : K}
+    (h0 : lo ≤ p) (hpq : p ≤ q) (h1 : q ≤ hi) :
+    ∃ bp ap bq aq,
+      estimateBelow (profileHist counts edges) (some lo) (some hi) p = some bp ∧
+      estimateAbove count missing (profileHist counts edges) (some lo) (some hi) p = some ap ∧
+      estimateBelow (profileHist counts edges) (some lo) (some hi) q = some bq ∧
+      estimateAbove count missing (profileHist counts edges) (some lo) (some hi) q = some aq ∧
+      0 ≤ bp ∧ bp ≤ bq ∧ bq ≤ count - missing ∧ bp + ap = count - missing ∧ bq + aq = count - missing ∧
+      0 ≤ aq ∧ aq ≤ ap ∧ ap ≤ count - missing := by
+  obtain ⟨_, ok, hm, hhead⟩ := one_batch_profile_ok h count missing hn
+  obtain ⟨bp, ap, e1, e2, b0, _, _, a1, s1⟩ :=
+    profile_estimates_bounded ok count missing hm hhead h0 (le_trans hpq h1)
+  obtain ⟨bq, aq, e3, e4, _, b1, a0, _, s2⟩ :=
+    profile_estimates_bounded ok count missing hm hhead (le_trans h0 hpq) h1
+  have hmono := profile_below_mono ok hhead h0 hpq h1 e1 e3
+  exact ⟨bp, ap, bq, aq, e1, e2, e3, e4, b0, hmono, b1, s1, s2, a0, by linarith, a1⟩
+
+/-- Non-vacuity of numpy's contract: three bins over `[0, 3]`, the middle one empty; the profile keeps two bins, the first
+at the minimum. -/
+example : NumpyHist [2, 0, 1] [(0 : ℚ), 1, 2, 3] 0 3 3 ∧ profileHist [2, 0, 1] [(0 : ℚ), 1, 2, 3] = [(0, 2), (2, 1)] :=
+  ⟨⟨by decide, by decide +kernel, rfl, rfl, rfl, ⟨2, [0, 1], rfl, by decide⟩, by decide⟩, by decide +kernel⟩
+
+/-- The two base cases of `small_sum_keeps_first_bin_at_minimum`: a one-batch profile (numpy's contract) and the placeholder
+`TableProfile.__add__` builds for a column the right table lacks have their first bin at the minimum (the placeholder has
+neither). -/
+theorem base_profiles_first_bin_at_minimum {counts : List Nat} {edges : List K} {lo hi : K} {n : Nat}
+    (h : NumpyHist counts edges lo hi n) (count missing : K) (l : EProf K) (rr : K) :
+    PHeadMin (⟨count, missing, some lo, some hi, profileHist counts edges, none⟩ : EProf K) ∧ PHeadMin (placeholder l rr) := by
+  obtain ⟨_, _, _, _, _, f0, rest, hh⟩ := profileHist_facts comprehension_keeps_left_edges h (by decide)
+  refine ⟨?_, rfl⟩
+  unfold PHeadMin
+  simp only [hh, List.head?_cons]
+
+/-- **A sum that never trims keeps its first bin at the minimum**: two well-formed profiles whose first bins sit at their
+minima (`PHeadMin`: every one-batch profile by `one_batch_profile_ok`, an all-null batch, the placeholder of a table sum) and
+whose histograms have at most `binCount` bins between them add up — over the reference merge — to a profile whose first bin
+sits at its minimum: the sum has no left tail either. -/
+theorem small_sum_keeps_first_bin_at_minimum {a b c : EProf K} (ha : ProfOK a) (hb : ProfOK b)
+    (pa : PHeadMin a) (pb : PHeadMin b) (hfit : a.hist.length + b.hist.length ≤ Gen.Distogram.binCount)
+    (h : EProf.addRef a b = .ok c) : ProfOK c ∧ PHeadMin c :=
+  ⟨addRef_profOK load_keeps_bounds ha hb h, addRef_headMin load_keeps_bounds ha hb pa pb hfit h⟩
+
+/-- **The estimates of such a profile at full strength** — the clause that is only `_partial` for trimmed sums (C14-K01):
+a well-formed profile whose first bin is at its minimum answers inside `[minimum, maximum]` with both estimates defined, within
+`[0, count - missing]`, adding up, `below` non-decreasing and `above` non-increasing.  By `one_batch_profile_ok` and
+`small_sum_keeps_first_bin_at_minimum` this covers every one-batch profile and every sum of profiles that does not exceed the
+bin limit (any grouping, as long as each `+` fits). -/
+theorem first_bin_at_minimum_estimates_full {p : EProf K} (ok : ProfOK p) (hm : PHeadMin p) (hne : p.hist ≠ []) :
+    ∃ lo hi, p.minimum = some lo ∧ p.maximum = some hi ∧
+      ∀ x y, lo ≤ x → x ≤ y → y ≤ hi →
+        ∃ bx ax by' ay,
+          estimateBelow p.hist (some lo) (some hi) x = some bx ∧ estimateAbove p.count p.missing p.hist (some lo) (some hi) x = some ax ∧
+          estimateBelow p.hist (some lo) (some hi) y = some by' ∧ estimateAbove p.count p.missing p.hist (some lo) (some hi) y = some ay ∧
+          0 ≤ bx ∧ bx ≤ by' ∧ by' ≤ p.count - p.missing ∧ bx + ax = p.count - p.missing ∧ by' + ay = p.count - p.missing ∧
+          0 ≤ ay ∧ ay ≤ ax ∧ ax ≤ p.count - p.missing := by
+  obtain ⟨lo, hi, hlo, hhi, hok⟩ := profOK_histOK ok hne
+  have hhead : ∀ v0 f0, p.hist.head? = some (v0, f0) → lo = v0 := by
+    intro v0 f0 hh
+    unfold PHeadMin at hm
+    rw [hh] at hm
+    simp only at hm
+    rw [hlo] at hm
+    exact Option.some.inj hm
+  refine ⟨lo, hi, hlo, hhi, ?_⟩
+  intro x y h0 hxy h1
+  obtain ⟨bx, ax, e1, e2, b0, _, _, a1, s1⟩ :=
+    profile_estimates_bounded hok p.count p.missing ok.mass hhead h0 (le_trans hxy h1)
+  obtain ⟨by', ay, e3, e4, _, b1, a0, _, s2⟩ :=
+    profile_estimates_bounded hok p.count p.missing ok.mass hhead (le_trans h0 hxy) h1
+  have hmono := profile_below_mono hok hhead h0 hxy h1 e1 e3
+  exact ⟨bx, ax, by', ay, e1, e2, e3, e4, b0, hmono, b1, s1, s2, a0, by linarith, a1⟩
+
+/-! ## Round 4: table-level sums — `TableProfile + TableProfile` with different column sets and row counts -/
+
+section tables
+open Gen.TableProf (placeholderCount placeholderMissing)
+
+variable {t a b s : TProf K} {c : String × EProf K}
+
+/-- **The stand-in for a column the right table lacks holds no values** (`Gen.TableProf.placeholderCount /
+placeholderMissing`, regenerated from `TableProfile.__add__` on every run): whatever the row counts of the two tables, its
+`count - missing` is 0, so it adds rows but no values to the column sum.  With `ColumnProfile(name, type, right_rows,
+left_column.count)` this no longer checks (the placeholder would hold `right_rows - left_rows` values no histogram knows of). -/
+theorem placeholder_holds_no_values : PlaceholderEmpty K := by
+  intro lc lm rr
+  simp [placeholderCount, placeholderMissing]
+
+/-- **Every column of every reachable table profile is a reachable column profile**: tables built from frames (columns
+well formed, numpy's histogram the parameter), estimated on in between, added any number of times in any grouping — the
+right table lacking columns of the left one, having others, in another order, with any row count — have columns to which
+`sum_estimates_use_the_sum`, `reachable_profile_ok`, `reachable_below_add_above` and `reachable_estimates_bounded` apply. -/
+theorem table_columns_reachable (h : TReach t) (hc : c ∈ t.cols) : Reach refMerge ProfOK c.2 :=
+  treach_cols placeholder_holds_no_values h c hc
+
+/-- **What a table sum consists of**: the column names of the left table, in its order; each column holds the non-null
+values of the left table's column plus those of the right table's column of that name — **none** when the right table lacks
+it, whatever the two row counts are. -/
+theorem table_sum_columns (h : TProf.addRef a b = .ok s) :
+    s.cols.map (·.1) = a.cols.map (·.1) ∧
+    ∀ c ∈ s.cols, ∃ l, a.column c.1 = some l ∧
+      c.2.nonNull = l.nonNull + (match b.column c.1 with | some r => r.nonNull | none => 0) := by
+  obtain ⟨hn, hcs⟩ := addColumns_spec EProf.addRef a b _ _ (tAddWith_ok h)
+  refine ⟨hn, ?_⟩
+  intro c hc
+  obtain ⟨l, r, hl, hr, hsum⟩ := hcs c hc
+  refine ⟨l, hl, ?_⟩
+  have hrn : r.nonNull = (match b.column c.1 with | some r => r.nonNull | none => 0) := by
+    cases hb : b.column c.1 with
+    | none =>
+      rw [hb] at hr; simp only [Option.getD_none] at hr
+      subst hr
+      exact (placeholder_profOK placeholder_holds_no_values l b.rows).2.2
+    | some r' =>
+      rw [hb] at hr; simp only [Option.getD_some] at hr
+      subst hr; rfl
+  rw [← hrn]
+  by_cases lf : Gen.TableProf.sumLeftFirst = true
+  · rw [if_pos lf] at hsum; exact nonNull_add hsum
+  · rw [if_neg lf] at hsum; rw [nonNull_add hsum]; ring
+
+/-- **Below and above add up on every column of every reachable table profile**, and the histogram the estimates are
+computed from has exactly `count - missing` values — the clause the placeholder of a half-finished tidy-up breaks. -/
+theorem table_estimates_add_up (h : TReach t) (hc : c ∈ t.cols) :
+    sumCounts c.2.view.bins = c.2.count - c.2.missing ∧
+    ∀ x b', c.2.below x = some b' → ∃ a', c.2.above x = some a' ∧ b' + a' = c.2.count - c.2.missing :=
+  ⟨(reachable_profile_ok (table_columns_reachable h hc)).2,
+   fun _ _ hb => reachable_below_add_above (table_columns_reachable h hc) hb⟩
+
+end tables
+
+/-- Non-vacuity of the table theorems: the profile of a frame with columns `a`, `b` (three rows) plus the profile of a
+one-row frame that has only `a`: the sum keeps both columns, `b` with its 3 values (4 rows reported twice over — the
+placeholder repeats the left column's count — but no value added). -/
+example :
+    let ta : TProf ℚ := ⟨[("a", ⟨3, 0, some 1, some 4, [(1, 2), (4, 1)], none⟩), ("b", ⟨3, 0, some 0, some 7, [(0, 1), (3, 1), (7, 1)], none⟩)]⟩
+    let tb : TProf ℚ := ⟨[("a", ⟨1, 0, some 2, some 2, [(2, 1)], none⟩)]⟩
+    ∃ s, TProf.addRef ta tb = .ok s ∧ s.cols.map (·.1) = ["a", "b"] ∧
+      s.cols.map (fun c => c.2.nonNull) = [4, 3] ∧ s.cols.map (fun c => sumCounts c.2.hist) = [4, 3] := by
+  refine ⟨_, rfl, ?_⟩
+  decide +kernel
+
+/-- **What goes wrong when the placeholder takes its `count` from the right table but its `missing` from the left column**
+(`ColumnProfile(name, type, right_rows, left_column.count)`): a left column of three values added to the placeholder of a
+one-row right table reports `4 - 3 = 1` non-null value while its histogram holds 3 and `count_at` answers 3 at the maximum:
+`(count - missing) - count_at(maximum)`, the estimate of the values above the maximum, is `1 - 3 = -2`. -/
+theorem half_updated_placeholder_breaks_the_sum :
+    let l : EProf ℚ := ⟨3, 0, some 0, some 7, [(0, 1), (3, 1), (7, 1)], none⟩
+    let ph : EProf ℚ := ⟨1, 3, none, none, [], none⟩
+    ∃ c, EProf.addWith true refMerge l ph = .ok c ∧
+      c.count - c.missing = 1 ∧ sumCounts c.hist = 3 ∧
+      countAt c.hist c.minimum c.maximum 7 = some 3 ∧ (c.count - c.missing) - 3 = -2 := by
+  refine ⟨_, rfl, ?_⟩
+  decide +kernel
 
 /-- **What goes wrong when the copy keeps the attribute** (`addWith false`: `new_profile =
 self.deep_copy()` and nothing else — the code before `fix: adding column profiles drops the
